@@ -274,3 +274,36 @@ package common
 //@   opt noalloc
 //@   ensures (err != nil) == epc_proposer_err(epc, slot)
 //@   ensures err == nil ==> idx == epc_proposer(epc, slot)
+
+// ---------------------------------------------------------------- epochs_context.go: committee lookups (C07, C12)
+
+//@ sort CommsT = [][][]ValidatorIndex
+// sh_wf: one committee list per slot of the epoch, the same number of committees in every slot
+//@ define sh_wf(c CommsT, spe int) bool = len(c) == spe && (forall s :: {c[s]} 0 <= s && s < spe ==> len(c[s]) == len(c[0]))
+
+//@ func (epc *EpochsContext) getEpochComms(epoch) (comms, err)
+//@   property C07
+//@   opt inline=always
+//@   requires epc != nil && epc.PreviousEpoch != nil && epc.CurrentEpoch != nil && epc.NextEpoch != nil
+
+// get_committee_count_per_slot for one of the three epochs the context holds; other epochs are an error.
+//@ func (epc *EpochsContext) GetCommitteeCountPerSlot(epoch) (count, err)
+//@   property C07 C12
+//@   opt noalloc
+//@   requires epc != nil && epc.Spec != nil && epc.Spec.SLOTS_PER_EPOCH != 0 && epc.PreviousEpoch != nil && epc.CurrentEpoch != nil && epc.NextEpoch != nil
+//@   requires sh_wf(epc.PreviousEpoch.Committees, epc.Spec.SLOTS_PER_EPOCH) && sh_wf(epc.CurrentEpoch.Committees, epc.Spec.SLOTS_PER_EPOCH) && sh_wf(epc.NextEpoch.Committees, epc.Spec.SLOTS_PER_EPOCH)
+//@   ensures prev: epoch == epc.PreviousEpoch.Epoch ==> err == nil && count == len(epc.PreviousEpoch.Committees[0])
+//@   ensures cur: epoch != epc.PreviousEpoch.Epoch && epoch == epc.CurrentEpoch.Epoch ==> err == nil && count == len(epc.CurrentEpoch.Committees[0])
+//@   ensures next: epoch != epc.PreviousEpoch.Epoch && epoch != epc.CurrentEpoch.Epoch && epoch == epc.NextEpoch.Epoch ==> err == nil && count == len(epc.NextEpoch.Committees[0])
+//@   ensures other: epoch != epc.PreviousEpoch.Epoch && epoch != epc.CurrentEpoch.Epoch && epoch != epc.NextEpoch.Epoch ==> err != nil
+
+// get_beacon_committee(slot, index): the committee stored for the slot's epoch at (slot mod SLOTS_PER_EPOCH, index).
+//@ func (epc *EpochsContext) GetBeaconCommittee(slot, index) (committee, err)
+//@   property C07 C12
+//@   opt noalloc
+//@   requires epc != nil && epc.Spec != nil && epc.Spec.SLOTS_PER_EPOCH != 0 && epc.PreviousEpoch != nil && epc.CurrentEpoch != nil && epc.NextEpoch != nil
+//@   requires sh_wf(epc.PreviousEpoch.Committees, epc.Spec.SLOTS_PER_EPOCH) && sh_wf(epc.CurrentEpoch.Committees, epc.Spec.SLOTS_PER_EPOCH) && sh_wf(epc.NextEpoch.Committees, epc.Spec.SLOTS_PER_EPOCH)
+//@   ensures prev: slot / epc.Spec.SLOTS_PER_EPOCH == epc.PreviousEpoch.Epoch ==> (err == nil <==> index < epc.Spec.MAX_COMMITTEES_PER_SLOT && index < len(epc.PreviousEpoch.Committees[0])) && (err == nil ==> eqseq(committee, epc.PreviousEpoch.Committees[slot % epc.Spec.SLOTS_PER_EPOCH][index]))
+//@   ensures cur: slot / epc.Spec.SLOTS_PER_EPOCH != epc.PreviousEpoch.Epoch && slot / epc.Spec.SLOTS_PER_EPOCH == epc.CurrentEpoch.Epoch ==> (err == nil <==> index < epc.Spec.MAX_COMMITTEES_PER_SLOT && index < len(epc.CurrentEpoch.Committees[0])) && (err == nil ==> eqseq(committee, epc.CurrentEpoch.Committees[slot % epc.Spec.SLOTS_PER_EPOCH][index]))
+//@   ensures next: slot / epc.Spec.SLOTS_PER_EPOCH != epc.PreviousEpoch.Epoch && slot / epc.Spec.SLOTS_PER_EPOCH != epc.CurrentEpoch.Epoch && slot / epc.Spec.SLOTS_PER_EPOCH == epc.NextEpoch.Epoch ==> (err == nil <==> index < epc.Spec.MAX_COMMITTEES_PER_SLOT && index < len(epc.NextEpoch.Committees[0])) && (err == nil ==> eqseq(committee, epc.NextEpoch.Committees[slot % epc.Spec.SLOTS_PER_EPOCH][index]))
+//@   ensures other: slot / epc.Spec.SLOTS_PER_EPOCH != epc.PreviousEpoch.Epoch && slot / epc.Spec.SLOTS_PER_EPOCH != epc.CurrentEpoch.Epoch && slot / epc.Spec.SLOTS_PER_EPOCH != epc.NextEpoch.Epoch ==> err != nil
